@@ -44,6 +44,8 @@ func (c *concComp) Exec(t []string) (extra []string, out string, eff bool) {
 		return c.withdraws(atoi("workers"), int64(atoi("credit")), int64(atoi("fee")))
 	case "samenode":
 		return c.sameNode(atoi("minutes"))
+	case "freshcredit":
+		return c.freshCredit(atoi("rounds"), int64(atoi("seed")))
 	}
 	return nil, "bad-op", false
 }
@@ -310,6 +312,10 @@ func (c *concComp) Gen(r *rand.Rand, idx int, emit func(string)) {
 		emit(fmt.Sprintf("samenode minutes=%d", 1+r.Intn(9)))
 		return
 	}
+	if idx%8 == 3 {
+		emit(fmt.Sprintf("freshcredit rounds=%d seed=%d", 400+r.Intn(400), r.Intn(1000)))
+		return
+	}
 	switch idx % 4 {
 	case 0:
 		emit(fmt.Sprintf("balances workers=%d each=%d seed=%d", 2+r.Intn(7), 20+r.Intn(60), r.Intn(1000)))
@@ -405,3 +411,66 @@ func (v *concCoreVariant) Gen(r *rand.Rand, idx int, emit func(string)) {
 }
 
 func init() { components["conc-core"] = func() Component { return &concCoreVariant{} } }
+
+
+// freshCredit: the first credits a node ever receives (no balance record yet) race with the node's own keep-alives and
+// re-registrations, which rewrite the node record those credit transactions read.
+func (c *concComp) freshCredit(rounds int, seed int64) ([]string, string, bool) {
+	s := openStore(c.driver)
+	defer s.Close()
+	r := rand.New(rand.NewSource(seed))
+	var failed int64
+	var acked, got []string
+	total := new(big.Int)
+	for round := 0; round < rounds; round++ {
+		id := store.NodeID(fmt.Sprintf("f%d", round))
+		s.SetNode(store.Node{ID: id, IsHost: true})
+		stop := make(chan struct{})
+		var bg sync.WaitGroup
+		for k := 0; k < 2; k++ {
+			bg.Add(1)
+			go func(k int) {
+				defer bg.Done()
+				for {
+					select {
+					case <-stop:
+						return
+					default:
+					}
+					if k == 0 {
+						s.UpdateNodePeers(id, nil, uint64(round))
+					} else {
+						s.SetNode(store.Node{ID: id, IsHost: true, BlockNumber: uint64(round)})
+					}
+				}
+			}(k)
+		}
+		sum := new(big.Int)
+		var mu sync.Mutex
+		var wg sync.WaitGroup
+		for k := 0; k < 3; k++ {
+			amt := big.NewInt(int64(1 + r.Intn(1000)))
+			wg.Add(1)
+			go func() {
+				defer wg.Done()
+				if err := s.AddNodeBalance(id, amt); err != nil {
+					atomic.AddInt64(&failed, 1)
+					return
+				}
+				mu.Lock()
+				sum.Add(sum, amt)
+				mu.Unlock()
+			}()
+		}
+		wg.Wait()
+		close(stop)
+		bg.Wait()
+		b, _ := s.GetNodeBalance(id)
+		acked = append(acked, fmt.Sprintf("%s:%s", id, sum))
+		got = append(got, fmt.Sprintf("%s:%s", id, b.Credit.String()))
+		total.Add(total, sum)
+	}
+	st, _ := s.Stats()
+	_ = total
+	return []string{"acked=" + strings.Join(acked, ","), "got=" + strings.Join(got, ","), "total=" + st.TotalCredit.String()}, fmt.Sprintf("ok failed=%d", failed), true
+}
